@@ -524,4 +524,6 @@ def run(ctx: Ctx, tier: str) -> Result:
     borrow(ctx, res, tier, "c19", ("C19.FRAME", "C19.ROOT"), "C02.PATH", "app-frame flag and shortened path per configuration (exclusion wins; exactly the matched prefix removed)")
     borrow(ctx, res, tier, "c15", ("C15.THREAD", "C15.RESULT"), "C02.THREAD", "a deferred snapshot is completed in the thread that took it, with the result of its own invocation")
     borrow(ctx, res, tier, "c07", ("C07.INJECT",), "C02.IDS", "variable ids are never handed out twice (a later value does not overwrite a collected one)")
+    borrow(ctx, res, tier, "c07", ("C07.ENTRY",), "C02.IDS", "every watch result points at an entry of the snapshot's table: what was given an id has its entry kept")
+    borrow(ctx, res, tier, "c11", ("C11.SIB",), "C02.TYPE", "the frame_type the tracepoint was given is the one the snapshot action works with (taken over as given by the builder)")
     return res
